@@ -29,7 +29,9 @@ META = dict(
           "preserve the representation invariant, yield the std::vector result over the WHOLE sequence and construct/destroy every element exactly once with "
           "the documented call counts - bounded stand-in: capacity <= 6, n <= 3, every size and position, symbolic values; swap unbounded; ClonePtr/"
           "CloneOnWritePtr/ReferencePtr copy/move/assign/upd/detach/reset/release semantics and use count == number of live handles for all handle states "
-          "(loop-free, unbounded). ResetOnCopy/ReinitOnCopy: native replay only."),
+          "(loop-free, unbounded). ReinitOnCopyHelper<T,true> / ResetOnCopyHelper<T,true> (scalar specialisations, T := int): every constructor, assignment and getter against the "
+          "documented copy semantics (copy assignment restores the target's OWN remembered initial value / value-initialises, source ignored), loop-free over the full int domain; the class-type "
+          "specialisations <T,false> (placement new / base-class operators): native replay only."),
     note=("Trusted: CBMC 6.11 + MiniSat, extractor rule tables. Assumed: life-cycle contracts of T's special members, allocN/freeN, clone()/delete; "
           "X := unsigned; owner arrays only; source value not aliased to an element except in array.alias.* (open finding F11); n <= max_size for "
           "reserve/resize (not checked by the code); insert with a huge count (F10, fixed) is an obligation; growWithGap (unreachable dead code) not claimed."),
@@ -220,6 +222,18 @@ def ptr_jobs(ctx, unit_c):
     return jobs
 
 
+def build_reinit_unit(ctx):
+    path = os.path.join(ctx.out, "reinit_unit.c")
+    open(path, "w").write('#include <stdbool.h>\n%s\n#include "%s/reinit_harness.h"\n' % (H.build_reinit_unit(ctx), SPEC))
+    return path
+
+
+def reinit_jobs(ctx, unit_c):
+    return [lambda h=h, f=f, n=n: cbmc_unit(ctx, "copywrap." + h[2:], [unit_c], h, no_dfcc=True, cbmc_args=["--pointer-check", "--bounds-check"], function=f, timeout=120,
+                                            min_obligations=n, require_props=[r"%s\.assertion" % h])
+            for h, f, n in (("h_reinit", "ReinitOnCopyHelper<T,true> constructors / assignments / getters", 12), ("h_reset", "ResetOnCopyHelper<T,true> constructors / assignments / getter", 7))]
+
+
 def build_array_unit(ctx):
     u = H.build_array_unit(ctx)
     path = os.path.join(ctx.out, "array_methods_unit.c")
@@ -233,6 +247,7 @@ def main(ctx):
         growth_c = build_growth_unit(ctx)
         array_c = build_array_unit(ctx)
         ptr_c = build_ptr_unit(ctx)
+        reinit_c = build_reinit_unit(ctx)
     except ExtractionError as e:
         ctx.undecide("extraction: %s" % e)
         return ctx.finish()
@@ -241,6 +256,7 @@ def main(ctx):
                               require_props=[r"postcondition", r"overflow"], function="Array_::calcNewCapacityForGrowthBy", timeout=200, min_obligations=8)]
     jobs += array_jobs(ctx, array_c)
     jobs += ptr_jobs(ctx, ptr_c)
+    jobs += reinit_jobs(ctx, reinit_c)
     parallel(jobs)
     ctx.trust("cbmc/goto-cc/goto-instrument 6.11.0 (C front end), MiniSat")
     ctx.trust("tools/extract.py rule tables + checks/_help_c26.py (extraction_report.json lists every rewrite and dropped token)")
@@ -261,7 +277,8 @@ def main(ctx):
         "reserve(n)/resize(n) with n > max_size(): the code never checks it (capacity could exceed max_size for narrow index types); kept as a precondition",
         "value argument aliasing an element beyond the two call shapes of finding F11 (push_back(a[i]) on a full array, insert(p,n,a[i]) within capacity): "
         "insert(p,a[i]), resize(n,a[i]), aliasing together with reallocation in insert",
-        "ResetOnCopy / ReinitOnCopy: not under CBMC contract (no function bodies to cut), native replay only",
+        "ResetOnCopy / ReinitOnCopy for class types (<T,false>: inherits from T, destructs and placement-news the base): not under CBMC contract, native replay only; "
+        "default member initialisers (T m_value{}) and the forwarding one-liners of the outer ReinitOnCopy/ResetOnCopy classes are not cut",
         "unbounded (loop-contract) proofs of defaultConstruct/fillConstruct/destruct/moveConstructThenDestructSource ranges and moveElementsUp/Down: not attempted; bounded only"]
     ctx.not_decided += ["Array_ sequences beyond the bound (capacity > 6, n > 3) for the element-moving methods",
                         "copy/move construction and assignment of Array_, assign(), iterator-range insert, emplace, ArrayView_ sub-range views and aliasing, non-owner arrays",
